@@ -18,7 +18,7 @@ def rng(a, b):
 # C06: a variable is captured inside some scope, the scope is left by some path, the closure is used later
 def capture_scenarios():
     out = []
-    wrappers = ["block", "if", "fn", "while", "for", "try", "catch", "finally", "tryfn"]
+    wrappers = ["block", "if", "fn", "while", "for", "try", "catch", "finally", "tryfn", "tryfinfn"]
     exits = ["fall", "break", "continue", "return", "throw", "error"]
     for wrapper, npad, kind, exit_, outer_local, write_after, postpad in itertools.product(
             wrappers, (0, 1, 2), ("read", "write", "two", "reverse"), exits, (False, True), (False, True), (0, 2)):
@@ -26,7 +26,7 @@ def capture_scenarios():
             continue
         if exit_ in ("break", "continue") and wrapper not in ("while", "for"):
             continue
-        if exit_ == "return" and wrapper not in ("fn", "tryfn"):
+        if exit_ == "return" and wrapper not in ("fn", "tryfn", "tryfinfn"):
             continue
         if exit_ in ("throw", "error") and wrapper in ("catch", "finally"):
             continue          # exceptions leaving catch / finally blocks are recorded findings (C08)
@@ -38,6 +38,8 @@ def capture_scenarios():
         b.var("g", lit(None))
         b.var("h", lit(None))
         guard = exit_ in ("throw", "error") and wrapper not in ("try", "tryfn")
+        if wrapper == "tryfinfn" and exit_ == "error":
+            continue
         if guard:
             b.try_()
         # open the wrapper
@@ -45,9 +47,9 @@ def capture_scenarios():
             b.block()
         elif wrapper == "if":
             b.if_(lit(True))
-        elif wrapper in ("fn", "tryfn"):
+        elif wrapper in ("fn", "tryfn", "tryfinfn"):
             b.fn("f", [])
-            if wrapper == "tryfn":
+            if wrapper in ("tryfn", "tryfinfn"):
                 b.try_()
         elif wrapper == "while":
             b.var("n", lit(0))
@@ -109,6 +111,14 @@ def capture_scenarios():
         elif wrapper == "tryfn":
             b.catch("e")
             b.print(lit("caught in f"))
+            b.end()
+            b.end()
+            b.print(call(b.v("f")))
+        elif wrapper == "tryfinfn":
+            # the try body is left (by fall-through, return or throw) towards a finally block that declares locals of its own
+            b.finally_()
+            b.var("y", lit("fin local"))
+            b.print(b.v("y"))
             b.end()
             b.end()
             b.print(call(b.v("f")))
@@ -364,6 +374,94 @@ def exit_path_scenarios():
         b.end()
         b.print(lit("done"))
         out.append(("exit:%s:%s:%s:%s" % (outer, before, exit_, place), b.toks))
+    return out
+
+
+def fiber_switch_context_scenarios():
+    """a fiber switch performed while the CALLER is in every kind of context the VM keeps per-interpreter or per-fiber state
+    for: inside try bodies (handler stacks), catch blocks, finally blocks with nothing / an exception / a return value pending,
+    loops with iterators on the stack, argument evaluation; the switch is a first call, a resume or a yield back; afterwards
+    the caller's pending completion must continue exactly as if the fiber operation had been an ordinary call."""
+    out = []
+    contexts = ["plain", "try-body", "catch-block", "finally-normal", "finally-exception", "finally-return", "for-loop", "argument"]
+    ops = ["first-call", "resume", "first-call-arg", "call-finishing", "nested-first-call"]
+    for ctx, op, where in itertools.product(contexts, ops, ("main", "fiber")):
+        b = Builder()
+        F = lambda: b.v("Fiber")
+        b.fn("work", [])
+        b.print(lit("work start"))
+        b.var("got", inv(F(), "yield", lit("y1")))
+        b.print(tup(lit("work resumed"), b.v("got")))
+        b.ret(lit("work done"))
+        b.end()
+        b.fn("work1", ["p"])
+        b.print(tup(lit("work1"), b.v("p")))
+        b.ret(tup(lit("ret"), b.v("p")))
+        b.end()
+        b.fn("quick", [])
+        b.ret(lit("quick done"))
+        b.end()
+        b.fn("outerwork", [])
+        b.var("inner", inv(F(), "new", b.v("quick")))
+        b.ret(tup(lit("outer saw"), inv(b.v("inner"), "call")))
+        b.end()
+        b.var("fw", inv(F(), "new", b.v("work")))
+        if op == "resume":
+            b.print(inv(b.v("fw"), "call"))
+
+        def switch():
+            if op == "first-call":
+                b.print(inv(b.v("fw"), "call"))
+            elif op == "resume":
+                b.print(inv(b.v("fw"), "call", lit("r1")))
+            elif op == "first-call-arg":
+                b.print(inv(inv(F(), "new", b.v("work1")), "call", lit("a1")))
+            elif op == "call-finishing":
+                b.print(inv(inv(F(), "new", b.v("quick")), "call"))
+            else:
+                b.print(inv(inv(F(), "new", b.v("outerwork")), "call"))
+
+        b.fn("ctx", [])
+        b.var("local", lit("ctx local"))
+        if ctx == "plain":
+            switch()
+        elif ctx == "try-body":
+            b.try_(); switch(); b.throw(lit("after switch")); b.catch("e"); b.print(tup(lit("caught"), b.v("e"))); b.end()
+        elif ctx == "catch-block":
+            b.try_(); b.throw(lit("first")); b.catch("e"); switch(); b.print(tup(lit("still"), b.v("e"))); b.end()
+        elif ctx == "finally-normal":
+            b.try_(); b.print(lit("body")); b.finally_(); switch(); b.print(lit("fin end")); b.end()
+        elif ctx == "finally-exception":
+            b.try_(); b.throw(lit("pending exc")); b.finally_(); switch(); b.print(lit("fin end")); b.end()
+            b.print(lit("NOT REACHED"))
+        elif ctx == "finally-return":
+            b.try_(); b.ret(lit("pending return")); b.finally_(); switch(); b.print(lit("fin end")); b.end()
+            b.print(lit("NOT REACHED"))
+        elif ctx == "for-loop":
+            b.for_("i", vec(lit("e1"), lit("e2"))); switch(); b.print(b.v("i")); b.break_(); b.end()
+        elif ctx == "argument":
+            b.print(tup(lit("before"), inv(inv(F(), "new", b.v("quick")), "call"), lit("after")))
+            switch()
+        b.print(b.v("local"))
+        b.ret(lit("ctx done"))
+        b.end()
+        b.fn("runner", [])
+        b.try_()
+        b.print(call(b.v("ctx")))
+        b.catch("oe")
+        b.print(tup(lit("runner caught"), b.v("oe")))
+        b.end()
+        b.ret(lit("runner done"))
+        b.end()
+        if where == "main":
+            b.print(call(b.v("runner")))
+        else:
+            b.print(inv(inv(F(), "new", b.v("runner")), "call"))
+        # the handler discipline afterwards: a fresh throw reaches only its own handler
+        b.try_(); b.throw(lit("probe")); b.catch("pe"); b.print(tup(lit("probe caught"), b.v("pe"))); b.end()
+        b.try_(); b.print(lit("probe body")); b.finally_(); b.print(lit("probe fin")); b.end()
+        b.print(lit("done"))
+        out.append(("fsw:%s:%s:%s" % (ctx, op, where), b.toks))
     return out
 
 
